@@ -148,6 +148,19 @@ func (u *unit) run() {
 	for _, fv := range u.fn.FreeVars {
 		v := s.get(fv)
 		s.names[fv.Name()] = nameBinding{v: fv, isAddr: true}
+		// a captured variable that the enclosing function initialises with a constant and
+		// that nothing ever writes again holds that constant
+		if c := constCaptured(u.fn, fv); c != nil {
+			pt := fv.Type().Underlying().(*types.Pointer)
+			cur := s.scratch().loadPtr(v, pt.Elem())
+			cv := s.constVal(c)
+			if cv.K != nil {
+				cv = u.mat(cv, pt.Elem())
+			}
+			if len(cur.S) == 1 && len(cv.S) == 1 {
+				s.pc = append(s.pc, eq(cur.S[0], cv.S[0]))
+			}
+		}
 		// captured variables are distinct allocated cells
 		if len(v.S) == 2 {
 			s.pc = append(s.pc, fmt.Sprintf("(> %s 0)", v.S[0]), eq(v.S[1], u.m.offConst(0)))
@@ -411,6 +424,82 @@ func (s *state) exec(b *ssa.BasicBlock, pred *ssa.BasicBlock, start int) {
 }
 
 func (s *state) endPath() { s.u.npaths++ }
+
+// constCaptured: fv is a captured variable of closure fn whose only store anywhere (enclosing
+// function and all its closures) is the initialisation with a constant; returns that constant
+func constCaptured(fn *ssa.Function, fv *ssa.FreeVar) *ssa.Const {
+	parent := fn.Parent()
+	if parent == nil {
+		return nil
+	}
+	idx := -1
+	for i, f := range fn.FreeVars {
+		if f == fv {
+			idx = i
+		}
+	}
+	var cell ssa.Value
+	for _, b := range parent.Blocks {
+		for _, in := range b.Instrs {
+			if mc, ok := in.(*ssa.MakeClosure); ok && mc.Fn == fn && idx >= 0 && idx < len(mc.Bindings) {
+				cell = mc.Bindings[idx]
+			}
+		}
+	}
+	al, ok := cell.(*ssa.Alloc)
+	if !ok {
+		return nil
+	}
+	var only *ssa.Const
+	stores := 0
+	// aliases of the cell: the Alloc itself in the parent, and the free variables bound to it
+	alias := map[ssa.Value]bool{al: true}
+	fns := append([]*ssa.Function{parent}, parent.AnonFuncs...)
+	for _, b := range parent.Blocks {
+		for _, in := range b.Instrs {
+			if mc, ok := in.(*ssa.MakeClosure); ok {
+				if cf, ok := mc.Fn.(*ssa.Function); ok {
+					for i, bnd := range mc.Bindings {
+						if bnd == al && i < len(cf.FreeVars) {
+							alias[cf.FreeVars[i]] = true
+						}
+					}
+				}
+			}
+		}
+	}
+	for _, f := range fns {
+		for _, b := range f.Blocks {
+			for _, in := range b.Instrs {
+				switch d := in.(type) {
+				case *ssa.Store:
+					if alias[d.Addr] {
+						stores++
+						if c, ok := d.Val.(*ssa.Const); ok && f == parent {
+							only = c
+						} else {
+							only = nil
+							stores += 100
+						}
+					}
+				case *ssa.MakeClosure, *ssa.UnOp, *ssa.DebugRef:
+					// binding into a closure, loads: fine
+				default:
+					// any other use of the cell's address (passed along, stored) makes it mutable
+					for _, op := range in.Operands(nil) {
+						if *op != nil && alias[*op] {
+							stores += 100
+						}
+					}
+				}
+			}
+		}
+	}
+	if stores == 1 && only != nil {
+		return only
+	}
+	return nil
+}
 
 // loopSpecFor: the loop clauses for loop ord of fn - for an inlined callee the ones the unit's
 // contract gives (`loop Callee.k ...`), otherwise the function's own
